@@ -12,3 +12,11 @@ P.trusted += A.P.trusted
 for t in A.P.tasks:
     if t.name == "index_builder.ownership_and_acceptance":
         P.tasks.append(Task(P, "index." + t.name, t.fn, t.func, files=A.P.files, timeout=t.timeout, order=t.order, z3_ms=t.z3_ms, polyid_s=t.polyid_s))
+
+# every call of reb_simulation_save_to_file on an existing archive appends exactly one snapshot (or reports that none was
+# saved): the append-protocol task of C07 (four writes: old trailer, delta, END, new trailer) is re-registered here, since a
+# call that silently appends nothing shifts every later snapshot index ("snapshot k equals the live state at save k")
+from contracts import C07_append as AP
+for t in AP.P.tasks:
+    if t.name == "append.trailer_protocol":
+        P.tasks.append(Task(P, "one_snapshot_per_call." + t.name, t.fn, t.func, files=t.files or AP.P.files, timeout=t.timeout, order=t.order, z3_ms=t.z3_ms, polyid_s=t.polyid_s, replay=t.replay))
